@@ -50,8 +50,8 @@ PROPS = {
 }
 PROPS["C03"] = dict(
     title="secondary indexes always mirror the base table",
-    quick=[G("M_IDX"), H(30)],
-    thorough=[G("M_IDX", cfg="M_IDX_t"), H(600, 60)],
+    quick=[G("M_IDX"), G("M_IDX", cfg="M_IDX_ill"), G("M_TIDX"), T("M_DOTQ"), H(30)],
+    thorough=[G("M_IDX", cfg="M_IDX_t"), G("M_IDX", cfg="M_IDX_ill"), G("M_TIDX", cfg="M_TIDX_t"), T("M_DOTQ"), H(600, 60)],
     own=[parts("Index", "IdxCount", "IdxDesc")],
     design_ref="DESIGN.md 6 C03",
     level_text="Every history of put / overwrite / update / delete / clear / create-index / delete-index over a bounded table with two "
@@ -71,8 +71,8 @@ PROPS["C05"] = dict(
 )
 PROPS["C08"] = dict(
     title="a request that fails leaves no trace",
-    quick=[G("M_FAIL"), H(30)],
-    thorough=[G("M_FAIL", cfg="M_FAIL_t"), H(600, 60)],
+    quick=[G("M_FAIL"), G("M_IDX", cfg="M_IDX_ill"), H(30)],
+    thorough=[G("M_FAIL", cfg="M_FAIL_t"), G("M_IDX", cfg="M_IDX_ill"), H(600, 60)],
     own=[parts("Base", "Index", "IdxCount", "IdxDesc", "Desc", "Catalog")],
     when=lambda f: f["oc"] != "ok",      # C08 speaks about calls that fail; a wrongly accepted request belongs to C07/C13/C16
     level="fault_enumeration",
@@ -84,8 +84,8 @@ PROPS["C08"] = dict(
 )
 PROPS["C02"] = dict(
     title="Query and Scan return exactly the matching items, in sort-key order",
-    quick=[G("M_READ"), T("M_DOTQ"), G("M_IDX"), H(30)],
-    thorough=[G("M_READ", cfg="M_READ_t"), T("M_DOTQ"), G("M_IDX", cfg="M_IDX_t"), H(600, 60)],
+    quick=[G("M_READ"), T("M_DOTQ"), G("M_IDX"), G("M_TIDX"), H(30)],
+    thorough=[G("M_READ", cfg="M_READ_t"), T("M_DOTQ"), G("M_IDX", cfg="M_IDX_t"), G("M_TIDX", cfg="M_TIDX_t"), H(600, 60)],
     own=[parts("Outcome", "Data", "NoCrash"), parts("Index")],
     when=lambda f: f["op"] in ("Query", "Scan", "Walk") or any(p.endswith(".Index") for p in f["parts"]),   # reads, and reads through indexes in observations
     design_ref="DESIGN.md 6 C02",
